@@ -72,6 +72,20 @@ def stmt_failure(idx, pos, w, rng=None):
     gu = A.T @ ru
     if (np.abs(gu) > 1e-7 * (np.abs(A).T @ (np.abs(ru) + 1e-12 * sc)) + 1e-9 * len(idx) * sc).any():
         return 'optimize is not the unweighted least-squares optimum'
+    # the fit does not depend on matcher settings that concern matching only (tolerance, min_weight, min_match: the indices are given)
+    m4 = grm.Matcher(tolerance=0.5, min_weight=float(w.max()) + 1.0, min_match=len(pos) + 3).affinematch(centers=pos, refineds=pos, peak_values=w, peak_elevations=w, indices=idx)
+    if m4.isnan() or len(m4) != len(pos) or not (np.array_equal(m4.zero, m.zero) and np.array_equal(m4.a, m.a) and np.array_equal(m4.b, m.b)):
+        return 'affinematch depends on the matcher\'s min_match / min_weight / tolerance (selected %d of %d, invalid=%s)' % (len(m4), len(pos), m4.isnan())
+    # a Match that was inspected (error, calculated positions) BEFORE being optimised reports the optimised lattice afterwards
+    ms = grm.Match(grm.CorrelationResult(centers=pos, refineds=pos, peak_values=w, peak_elevations=w), selector=None,
+                   zero=m.zero + np.array([1.5, -2.0]), a=m.a * 1.03, b=m.b + np.array([0.4, 0.3]), indices=idx)
+    e_before, c_before = ms.error, ms.calculated_refineds.copy()
+    for nm, mo in (('weighted_optimize', ms.weighted_optimize()), ('optimize', ms.optimize())):
+        calc = mo.zero + idx @ np.array([mo.a, mo.b])
+        e_want = float((np.linalg.norm(pos - calc, axis=1) * w).sum() / w.sum())
+        if not np.allclose(mo.calculated_refineds, calc, atol=1e-9 * sc) or abs(mo.error - e_want) > 1e-9 * max(1.0, e_want):
+            return ('%s() of a Match whose error / calculated_refineds had been read before: reported error %.6g, calculated positions off by %.3g; '
+                    'the returned lattice has error %.6g' % (nm, mo.error, float(np.abs(mo.calculated_refineds - calc).max()), e_want))
     # rescaling the weights
     k = float(rng.choice([1e-8, 1e-6, 1e-3, 0.5, 7.0, 1e3, 1e6]))
     m2 = matcher.affinematch(centers=pos, refineds=pos, peak_values=w * k, peak_elevations=w * k, indices=idx)
